@@ -24,7 +24,7 @@ _HOT_DEFAULT = [
     "arg:LevelSet.min.z", "arg:LevelSet.level", "arg:LevelSet.tolerance", "arg:CS.Warp.out", "arg:CS.Offset.delta",
     "arg:Extrude.twist", "arg:Extrude.height", "arg:Extrude.nDivisions", "arg:Extrude.scaleTopX", "arg:Extrude.scaleTopY",
     "arg:Cylinder.radiusHigh", "arg:Cylinder.radiusLow", "arg:Cylinder.height", "arg:CS.Square.x", "arg:CS.Square.y",
-    "arg:SmoothOut.minSmoothness", "arg:SmoothOut.minSharpAngle", "arg:SetTolerance.tolerance", "arg:Simplify.tolerance",
+    "arg:Revolve.degrees", "pts:nan", "arg:SmoothOut.minSmoothness", "arg:SmoothOut.minSharpAngle", "arg:SetTolerance.tolerance", "arg:Simplify.tolerance",
 ]
 HOT = [h for h in _os.environ.get("C09_HOT", ",".join(_HOT_DEFAULT)).split(",") if h]
 
@@ -40,22 +40,22 @@ CHECK = {
     "exhaustive": {"quick": False, "thorough": False},
     "stages": [
         {"name": "mesh", "variant": "asan", "harness": "c09_malformed.cpp",
-         "cases": {"quick": 400, "thorough": 14000},
-         "params": {"mode": "mesh", "mutants": 40, "hot": ",".join(HOT), "hotPerCase": {"quick": 0.12, "thorough": 0.01}},
+         "cases": {"quick": 400, "thorough": 1400},
+         "params": {"mode": "mesh", "mutants": 40, "hot": ",".join(HOT), "hotPerCase": {"quick": 0.12, "thorough": 0.05}},
          "case_timeout": 60},
         {"name": "poly", "variant": "asan", "harness": "c09_malformed.cpp",
-         "cases": {"quick": 160, "thorough": 5000},
-         "params": {"mode": "poly", "mutants": 40, "hot": ",".join(HOT), "hotPerCase": {"quick": 0.12, "thorough": 0.01}},
+         "cases": {"quick": 160, "thorough": 500},
+         "params": {"mode": "poly", "mutants": 40, "hot": ",".join(HOT), "hotPerCase": {"quick": 0.12, "thorough": 0.05}},
          "case_timeout": 60},
         {"name": "args", "variant": "asan", "harness": "c09_malformed.cpp",
-         "cases": {"quick": 200, "thorough": 6000},
-         "params": {"mode": "args", "mutants": 40, "hot": ",".join(HOT), "hotPerCase": {"quick": 0.12, "thorough": 0.01}},
+         "cases": {"quick": 200, "thorough": 600},
+         "params": {"mode": "args", "mutants": 40, "hot": ",".join(HOT), "hotPerCase": {"quick": 0.12, "thorough": 0.05}},
          "case_timeout": 60},
     ],
     "assumptions": [
         "g++ -O1 -fsanitize=address,undefined -fno-sanitize-recover=all build of /repo's working tree, -DNDEBUG, MANIFOLD_PAR=-1",
         "termination is decided by the driver's watchdog (60 s without journal progress, retried alone with 600 s)",
-        "arguments that are valid but merely too large (segments > 64..4096, Refine n > 12, edge lengths implying > 3e4 cells, numProp > 2e5) are counted as resource_bound_not_executed and excluded",
+        "arguments that are valid but merely too large (segments > 64..4096, Refine n > 12, edge lengths implying > 3e4 cells, numProp or property index > 2000) are counted as resource_bound_not_executed and excluded",
     ],
 }
 
